@@ -31,6 +31,11 @@ func writeSubsysExt(spec string, enc *json.Encoder, t int, sc *Scenario, tr *Tra
 			_ = enc.Encode(e)
 			n++
 		}
+	case "Fees":
+		for _, e := range FeeEvents(t, sc, tr) {
+			_ = enc.Encode(e)
+			n++
+		}
 	default:
 		panic("unknown spec " + spec)
 	}
@@ -206,6 +211,7 @@ type OlvmEvent struct {
 	T     int       `json:"t"`
 	Ev    string    `json:"ev"`
 	H     int64     `json:"h"`
+	Fork  int64     `json:"fork"` // the height from which the EVM is switched on
 	Txs   []OlvmTx  `json:"txs"`
 	Other []string  `json:"other"`
 	S     OlvmState `json:"s"`
@@ -243,7 +249,7 @@ func OlvmEvents(t int, sc *Scenario, tr *Transcript) []OlvmEvent {
 		if b.State == nil {
 			break
 		}
-		e := OlvmEvent{T: t, Ev: "Block", H: b.H, Txs: []OlvmTx{}, Other: []string{}, S: olvmState(b.State)}
+		e := OlvmEvent{T: t, Ev: "Block", H: b.H, Fork: sc.Genesis.Fork, Txs: []OlvmTx{}, Other: []string{}, S: olvmState(b.State)}
 		for _, tx := range b.Txs {
 			if !accepted(tx) {
 				continue
